@@ -46,12 +46,11 @@ def verifyNow (n : Nat) (k v : Bytes) (m : Bool) (root : Bytes) (ps : List PNode
 
 def isReserved (n : Nat) (k : Key) : Bool := k == minKey n || k == maxKey n || k == rootKey n
 
-/-- the tree `NewReadOnly(v)` builds its proofs from: the committed one if it reads the prefix that `Root()`
-writes, an empty one otherwise (the two prefix names are regenerated from store.go on every run) -/
+/-- the tree `NewReadOnly(v)` builds its proofs from (`storeProofTree` on the two prefixes `facts` reads off
+store/store.go on every run) -/
 def readOnlyTree (s : St) (version : Nat) : Trie :=
-  if Gen.SmtFacts.rootWritesTreeUnder == Gen.SmtFacts.readOnlyReadsTreeFrom then
-    ((s.committed.find? (·.1 == version)).map (·.2)).getD (empty 160)
-  else empty 160
+  storeProofTree Gen.SmtFacts.rootWritesPrefix Gen.SmtFacts.readOnlyReadsPrefix 160
+    (((s.committed.find? (·.1 == version)).map (·.2)).getD (empty 160))
 
 def step (s : St) (line : String) : St × String :=
   match words line with
